@@ -5,6 +5,7 @@ import (
 	"go/types"
 	"go/parser"
 	"go/token"
+	"sort"
 	"strings"
 )
 
@@ -62,6 +63,10 @@ func canonCondWith(e ast.Expr, neg bool, leaf func(ast.Expr) string) string {
 				parts = append(parts, s)
 			}
 			flat(x)
+			if op == token.LOR {
+				// a disjunction says the same in any order of its operands
+				sort.Strings(parts)
+			}
 			return strings.Join(parts, op.String())
 		case token.EQL, token.NEQ, token.LSS, token.LEQ, token.GTR, token.GEQ:
 			op := x.Op
